@@ -150,3 +150,112 @@ Example c11_timeout_unfixed_refuted :
   /\ is_open (trace (run timeout_unfixed_sys [0%nat; 0%nat; 0%nat; 0%nat; 0%nat; 1%nat; 1%nat])) 0%nat = true
   /\ is_open (trace (run timeout_unfixed_sys [0%nat; 0%nat; 0%nat; 0%nat; 0%nat; 1%nat; 1%nat])) 1%nat = true.
 Proof. exact timeout_unfixed_refuted. Qed.
+
+(* ---------- "... exactly one side-effects frame ..., LISTING THE FILES IT CHANGED" ----------
+   Model/SideEffects.v: [run_call root f c] = the workspace after the mutating tool call [c] of a run attached to
+   a thread and the affected_paths of its continuity_tool_side_effects frame, computed as the code does: the
+   tool (apply_patch = Model/Patch.v, parser + Workspace::apply_patch with undo log and revert; write =
+   Model/Checkpoint.v write_tool; a shell command = any new workspace), what the tool reports (`changed_files`:
+   every path an operation names, BOTH ends of a move; `path` of write; nothing for a shell command), the files
+   of the auto checkpoint when the call returned no artifacts, and session.rs
+   summarize_continuity_tool_side_effects (normalise, sort, dedup).  [listed l q]: the list names the file whose
+   component path is q.  Files are compared by content and existence ([file_at]). *)
+From RipV Require Import Base.Fs Model.Paths Model.Checkpoint Model.Patch Model.SideEffects.
+From RipV Require Import Proofs.FsProofs Proofs.SideEffectsProofs.
+From RipV Require Proofs.CheckpointProofs Proofs.AutoCoverProofs.
+
+(* apply_patch, every patch document (parsable or not), every workspace, success or failure at any operation:
+   every file the call created, deleted or modified is listed; a frame without a list means nothing changed *)
+Theorem c11_patch_frame_lists_changed_paths : forall (root : str) (f : fs) (input : list N) (f' : fs) (fr : option (list str)),
+  fs_wf f -> run_call root f (CPatch input) = (f', fr) ->
+  match fr with
+  | Some l => forall q, file_at f' q <> file_at f q -> listed l q
+  | None => forall q, file_at f' q = file_at f q
+  end.
+Proof. exact patch_frame_lists_changed. Qed.
+Print Assumptions c11_patch_frame_lists_changed_paths.
+
+(* both ends of every move of a successful patch are in the list (the source is deleted, the target created) *)
+Theorem c11_move_lists_both_ends : forall (root : str) (f : fs) (input : list N) (f' : fs) (ch : list (list N))
+    (ops : list op) (p q : list N) (hs : list hunk),
+  apply_patch true [] f input = Applied f' ch -> parse_patch input = Some ops -> In (Upd p (Some q) hs) ops ->
+  exists l, snd (run_call root f (CPatch input)) = Some l /\ In (normalize_rel p) l /\ In (normalize_rel q) l.
+Proof. exact move_lists_both_ends. Qed.
+Print Assumptions c11_move_lists_both_ends.
+
+(* the list of a successful patch holds nothing but paths its operations name (it is NOT the exact diff: see
+   c11_listed_but_unchanged below) *)
+Theorem c11_patch_frame_lists_only_named_paths : forall (root : str) (f : fs) (input : list N) (f' : fs) (ch l : list (list N)),
+  apply_patch true [] f input = Applied f' ch ->
+  snd (run_call root f (CPatch input)) = Some l ->
+  forall y, In y l -> exists ops p, parse_patch input = Some ops /\ In p (affected_paths ops) /\ y = normalize_rel p.
+Proof. exact patch_frame_lists_only_named. Qed.
+Print Assumptions c11_patch_frame_lists_only_named_paths.
+
+(* write, all four modes, whether it succeeds or fails: no file but the one its argument names changes; a write
+   that reports success is listed under that name.  [tmp_free]: the temporary name of the atomic mode is not taken
+   (it carries a fresh uuid) *)
+Theorem c11_write_frame_lists_changed_path : forall (root : str) (f : fs) (raw : str) (mode : N) (data : bytes) (ext : str)
+    (f' : fs) (fr : option (list str)),
+  CheckpointProofs.sane f -> tmp_free f (CWrite raw mode data ext) ->
+  run_call root f (CWrite raw mode data ext) = (f', fr) ->
+  (forall q, file_at f' q <> file_at f q -> q = comps raw)
+  /\ (write_ok f (CWrite raw mode data ext) = true -> fr = Some [normalize_rel raw]).
+Proof. exact write_frame_lists_changed. Qed.
+Print Assumptions c11_write_frame_lists_changed_path.
+
+(* every mutating tool call.  Partial: a `write` that FAILS is excluded by [write_ok] (its frame lists the file of
+   the auto checkpoint, which is the one file it can have changed by the theorem above; the case "write failed
+   after removing the old file AND the auto checkpoint failed" is not excluded by proof).  A frame without a list
+   belongs to a shell command or to a call that changed nothing *)
+Definition c11_frame_lists_changed_paths_full : Prop := forall (root : str) (f : fs) (c : call) (f' : fs) (fr : option (list str)),
+  fs_wf f -> CheckpointProofs.sane f -> tmp_free f c ->
+  run_call root f c = (f', fr) ->
+  match fr with
+  | Some l => forall q, file_at f' q <> file_at f q -> listed l q
+  | None => is_shell c = true \/ forall q, file_at f' q = file_at f q
+  end.
+
+Theorem c11_frame_lists_changed_paths_partial : forall (root : str) (f : fs) (c : call) (f' : fs) (fr : option (list str)),
+  fs_wf f -> CheckpointProofs.sane f -> tmp_free f c -> write_ok f c = true ->
+  run_call root f c = (f', fr) ->
+  match fr with
+  | Some l => forall q, file_at f' q <> file_at f q -> listed l q
+  | None => is_shell c = true \/ forall q, file_at f' q = file_at f q
+  end.
+Proof. exact frame_lists_changed_paths. Qed.
+Print Assumptions c11_frame_lists_changed_paths_partial.
+
+(* a shell command's frame carries no list, whatever the command did to the workspace (the property's "listing
+   the files it changed" is not delivered for bash / shell: stated limitation, see props/C11.json) *)
+Theorem c11_shell_frame_has_no_list : forall (root : str) (f after : fs), run_call root f (CShell after) = (after, None).
+Proof. exact shell_frame_has_no_list. Qed.
+Print Assumptions c11_shell_frame_has_no_list.
+
+Require Import Coq.Strings.String.
+(* non-vacuity: a rename on a well-formed workspace — update a.txt, move it to n.txt: both names listed *)
+Example c11_move_demo :
+  snd (run_call root0 ws0 (CPatch patch_move)) = Some [s "a.txt"; s "n.txt"]
+  /\ same_listing (fst (run_call root0 ws0 (CPatch patch_move))) ws0_moved = true
+  /\ fs_wf ws0 /\ CheckpointProofs.sane ws0.
+Proof. exact move_demo. Qed.
+
+(* the condition is needed: when a move reports only its target (MvTargetOnly), the same call deletes a.txt and
+   its frame does not list it *)
+Theorem c11_move_source_unreported_refuted :
+  exists l f', run_call_gen MvTargetOnly root0 ws0 (CPatch patch_move) = (f', Some l)
+    /\ file_at f' (comps (s "a.txt")) <> file_at ws0 (comps (s "a.txt"))
+    /\ ~ In (normalize_rel (s "a.txt")) l.
+Proof. exact move_source_unlisted. Qed.
+Print Assumptions c11_move_source_unreported_refuted.
+
+(* the list is an upper bound, not the exact diff: a write of the content the file already has, a patch that
+   fails (move onto an existing file: nothing changed, the auto checkpoint's files are listed), add + delete of
+   one file in one patch *)
+Example c11_listed_but_unchanged :
+  (snd (run_call root0 ws0 call_same) = Some [s "a.txt"] /\ same_listing (fst (run_call root0 ws0 call_same)) ws0 = true)
+  /\ (snd (run_call root0 ws0 (CPatch patch_onto)) = Some [s "a.txt"; s "b.txt"]
+      /\ same_listing (fst (run_call root0 ws0 (CPatch patch_onto))) ws0 = true)
+  /\ (snd (run_call root0 ws0 (CPatch patch_add_del)) = Some [s "n.txt"]
+      /\ same_listing (fst (run_call root0 ws0 (CPatch patch_add_del))) ws0 = true).
+Proof. exact (conj write_same_listed_unchanged (conj failed_patch_listed_unchanged add_delete_listed_unchanged)). Qed.
